@@ -75,16 +75,36 @@ func recvTypeName(t types.Type) string {
 	return ""
 }
 
-// fieldName returns the field selected by a FieldAddr / Field value.
+// fieldAlias: "pkgpath.Type.currentFieldName" -> the name the field has in the reference tree (fields.json),
+// for unexported fields that were only renamed. Filled once by NewCtx.
+var fieldAlias = map[string]string{}
+
+func refFieldName(owner types.Type, st *types.Struct, idx int) string {
+	name := st.Field(idx).Name()
+	if len(fieldAlias) == 0 {
+		return name
+	}
+	if p, ok := owner.(*types.Pointer); ok {
+		owner = p.Elem()
+	}
+	if nt, ok := owner.(*types.Named); ok && nt.Obj().Pkg() != nil {
+		if old, ok := fieldAlias[nt.Obj().Pkg().Path()+"."+nt.Obj().Name()+"."+name]; ok {
+			return old
+		}
+	}
+	return name
+}
+
+// fieldName returns the field selected by a FieldAddr / Field value (its reference name when it was renamed).
 func fieldName(v ssa.Value) string {
 	switch x := v.(type) {
 	case *ssa.FieldAddr:
 		if st, ok := x.X.Type().Underlying().(*types.Pointer).Elem().Underlying().(*types.Struct); ok {
-			return st.Field(x.Field).Name()
+			return refFieldName(x.X.Type(), st, x.Field)
 		}
 	case *ssa.Field:
 		if st, ok := x.X.Type().Underlying().(*types.Struct); ok {
-			return st.Field(x.Field).Name()
+			return refFieldName(x.X.Type(), st, x.Field)
 		}
 	}
 	return ""
